@@ -144,6 +144,13 @@ Proof.
     rewrite IH by assumption. rewrite !blen_app. f_equal. f_equal. lia.
 Qed.
 
+Lemma blen_enc_hdrs_ge h : Forall kv_ok h -> 4 * N.of_nat (length h) <= blen (enc_hdrs h).
+Proof.
+  induction h as [|kv h IH]; intros Hok; [cbn; lia|].
+  inversion Hok; subst. rewrite blen_enc_hdrs_cons, blen_app, blen_enc_kv. cbn [length].
+  specialize (IH H2). lia.
+Qed.
+
 Theorem md_roundtrip_wire h r :
   N.of_nat (length h) < 65536 -> Forall kv_ok h -> in_i64 r ->
   md_unmarshal_wire (md_wire h r) = Ok (h, r).
@@ -153,6 +160,8 @@ Proof.
   assert (Hlen : blen (be16 n ++ enc_hdrs h ++ be64 u) = 2 + blen (enc_hdrs h) + 8).
   { rewrite !blen_app, blen_be16, blen_be64. lia. }
   rewrite ltb_false by lia. rewrite slice_from_0. rewrite rd16_be16 by assumption.
+  rewrite Hlen. pose proof (blen_enc_hdrs_ge h Hok) as Hge. fold n in Hge.
+  rewrite (ltb_false _ n) by (apply N.div_le_lower_bound; lia).
   replace (N.to_nat n) with (length h) by (unfold n; lia).
   change 2 with (blen (be16 n)) at 1.
   rewrite md_loop_enc by assumption.
@@ -231,6 +240,7 @@ Proof.
   unfold md_unmarshal_wire.
   destruct (N.ltb_spec (blen data) 10); [discriminate|].
   rewrite slice_from_0. destruct (rd16_some data ltac:(lia)) as [c Ec]. rewrite Ec.
+  destruct ((blen data - 10) / 4 <? c); [discriminate|].
   pose proof (md_loop_no_panic (N.to_nat c) data 2) as Hn.
   destruct (md_loop (N.to_nat c) data 2) as [| e | [pos hs]]; [congruence | discriminate |].
   destruct (N.ltb_spec (blen data) (pos + 8)); [discriminate|].
@@ -244,12 +254,13 @@ Proof.
   destruct (md_unmarshal_wire data) as [| e | [hs r]]; [congruence | discriminate | discriminate].
 Qed.
 
-(* the map capacity hint read from the wire never exceeds 65535 entries *)
-Theorem md_map_hint_bound data : bytes_ok data -> md_map_hint data < 65536.
+(* the map capacity hint taken from the wire is proportional to the input: four bytes per entry *)
+Theorem md_map_hint_bound data : 10 + 4 * md_map_hint data <= N.max 10 (blen data).
 Proof.
-  intros Hok. unfold md_map_hint. destruct (blen data <? 10); [lia|].
-  destruct data as [|a [|b r]]; cbn [rd16]; try lia.
-  inversion Hok as [|? ? Ha H1]; subst. inversion H1 as [|? ? Hb H2]; subst. lia.
+  unfold md_map_hint. destruct (N.ltb_spec (blen data) 10); [lia|].
+  destruct (rd16 data) as [c|]; [|lia].
+  destruct (N.ltb_spec ((blen data - 10) / 4) c); [lia|].
+  pose proof (N.mul_div_le (blen data - 10) 4 ltac:(lia)). nia.
 Qed.
 
 (* strict prefixes of a metadata block are rejected *)
